@@ -47,12 +47,14 @@ def gen_case(rng, tier, index):
     feats = {"vars", "depenv", "diamond", "checkoutscript"} | set(rng.sample(["import", "provideVars", "tools", "classes", "forward", "provideDeps"], rng.randint(0, 4)))
     model = projgen.gen_valid_project(rng, nmin=4, nmax=7, features=feats)
     ops = [["dev", 1, rng.getrandbits(32)]]
+    # values from a tiny pool: variants disappear and *re-appear* while others exist
+    pool = rng.choice([None, ["x", "y"], ["x", "y", "z"]])
     hist = [model]
     cur = model
     for _ in range(rng.choice([3, 5, 7, 9])):
         r = rng.random()
         if r < 0.45:
-            e = projgen.gen_edit(rng, cur, hist, VARIANT_EDITS)
+            e = projgen.gen_edit(rng, cur, hist, VARIANT_EDITS, value_pool=pool)
             if e is None:
                 continue
             cur = projgen.apply_edit(cur, e, hist)
@@ -64,6 +66,28 @@ def gen_case(rng, tier, index):
         else:
             ops.append(["clean", rng.choice(["develop", "develop", "release"]), rng.random() < 0.3, rng.random() < 0.3])
     return {"model": model, "ops": ops}
+
+def directed_cases(tier):
+    """A variant gets directory n, disappears, another variant takes n, and then the
+    first one comes back while the second still exists."""
+    import random
+    rng = random.Random(16)
+    def leaf():
+        return projgen._leaf(rng)
+    lib = leaf(); lib["buildVars"] = ["VA"]; lib["packageVars"] = ["VA"]
+    wrap = leaf(); wrap["depends"] = [{"name": "lib", "use": ["result", "deps"], "environment": {"VA": "c"}}]
+    root = leaf(); root["depends"] = [{"name": "lib", "use": ["result", "deps"], "environment": {"VA": "a"}}]
+    model = {"recipes": {"root": root, "wrap": wrap, "lib": lib}, "classes": {}, "default_env": {}, "sources": {},
+             "order": ["root", "wrap", "lib"], "features": ["directed-reappearing-variant"]}
+    out = []
+    for mode in ("dev", "build"):
+        ops = [[mode, 1, 1],
+               ["edit", {"kind": "dep_env", "recipe": "root", "index": 0, "var": "VA", "value": "c"}], [mode, 1, 2],
+               ["edit", {"kind": "dep_env", "recipe": "root", "index": 0, "var": "VA", "value": "a"}],
+               ["edit", {"kind": "dep_add", "recipe": "root", "dep": "wrap", "pos": 1}], [mode, 2, 3], [mode, 1, 4],
+               ["clean", "develop" if mode == "dev" else "release", False, False], [mode, 1, 5]]
+        out.append({"model": model, "ops": ops, "directed": "variant re-appears while its old number is taken"})
+    return out
 
 def _ws_of_script(script):
     return os.path.join(os.path.dirname(script), "workspace")
